@@ -1275,3 +1275,53 @@ Proof.
     unfold json_path_fuel. cbv zeta. unfold ws_around at 1. rewrite !MT.
     rewrite (pred_fails k T (unrooted_not_predicate k T C1 Hn)). cbn [pmap pbind palt]. rewrite PP. cbv iota beta. rewrite E. cbn [pbind]. rewrite M. reflexivity.
 Qed.
+
+(* ================================================================== soundness, first fragment: the steps other than index lists *)
+Lemma ptag_sound lit : forall bs r u, ptag lit bs = POk r u -> bs = lit ++ r.
+Proof.
+  induction lit as [|c lit IH]; intros bs r u H; cbn [ptag] in H; [injection H as ->; reflexivity|].
+  destruct bs as [|b bs]; [discriminate H|]. destruct (b =? c) eqn:E; [|discriminate H]. apply N.eqb_eq in E. subst b.
+  cbn [app]. f_equal. apply (IH _ _ _ H).
+Qed.
+Lemma ms_split_cons bs c r : multispace0 bs = c :: r -> exists w, bs = w ++ c :: r /\ pws w.
+Proof. intros H. destruct (multispace0_split bs) as (w & E & Hw & _). rewrite H in E. exists w. split; assumption. Qed.
+
+Lemma field_sound x r s : palt (pstring x) (fun _ => raw_string x) = POk r s ->
+  exists t, x = t ++ r /\ (quoted_name t s \/ bare_name t s).
+Proof.
+  intros H. destruct (pstring x) as [r1 s1| | |] eqn:E; cbn [palt] in H; try discriminate H.
+  - injection H as <- <-. destruct (pstring_sound _ _ _ E) as (t & -> & Hq). exists t. split; [reflexivity|left; exact Hq].
+  - destruct (raw_string_sound _ _ _ H) as (t & -> & Hb & _). exists t. split; [reflexivity|right; exact Hb].
+Qed.
+
+Theorem inner_path_sound_partial bs r p : inner_path bs = POk r p -> (forall l, p <> PIndices l) ->
+  exists t, bs = t ++ r /\ step_text t p.
+Proof.
+  unfold inner_path. intros H Hp.
+  destruct (ptag [46; 42] bs) as [r1 u1| | |] eqn:E1; cbn [pmap pbind palt] in H; try discriminate H.
+  { injection H as <- <-. apply ptag_sound in E1. exists [46; 42]. split; [exact E1|constructor]. }
+  destruct (bracket_wildcard bs) as [r2 u2| | |] eqn:E2; cbn [pmap pbind palt] in H; try discriminate H.
+  { injection H as <- <-. unfold bracket_wildcard in E2.
+    destruct (pchar 91 bs) as [q1 v1| | |] eqn:P1; cbn [pbind] in E2; try discriminate E2. apply pchar_sound in P1.
+    destruct (pchar 42 (multispace0 q1)) as [q2 v2| | |] eqn:P2; cbn [pbind] in E2; try discriminate E2. apply pchar_sound in P2.
+    apply pchar_sound in E2. destruct (ms_split_cons _ _ _ P2) as (w1 & -> & H1). destruct (ms_split_cons _ _ _ E2) as (w2 & -> & H2).
+    exists (91 :: w1 ++ 42 :: w2 ++ [93]). split; [rewrite P1; norm; reflexivity|apply ST_bracket_wildcard; assumption]. }
+  destruct (colon_field bs) as [r3 s3| | |] eqn:E3; cbn [pmap pbind palt] in H; try discriminate H.
+  { injection H as <- <-. unfold colon_field, field_after in E3.
+    destruct (pchar 58 bs) as [q1 v1| | |] eqn:P1; cbn [pbind palt] in E3; try discriminate E3. apply pchar_sound in P1. subst bs.
+    destruct (field_sound q1 r3 s3 E3) as (t & -> & [Hq|Hb]); exists (58 :: t); (split; [reflexivity|]); [apply ST_colon_quoted|apply ST_colon_name]; assumption. }
+  destruct (dot_field bs) as [r4 s4| | |] eqn:E4; cbn [pmap pbind palt] in H; try discriminate H.
+  { injection H as <- <-. unfold dot_field, field_after in E4.
+    destruct (pchar 46 bs) as [q1 v1| | |] eqn:P1; cbn [pbind palt] in E4; try discriminate E4. apply pchar_sound in P1. subst bs.
+    destruct (field_sound q1 r4 s4 E4) as (t & -> & [Hq|Hb]); exists (46 :: t); (split; [reflexivity|]); [apply ST_dot_quoted|apply ST_dot_name]; assumption. }
+  destruct (array_indices bs) as [r5 l5| | |] eqn:E5; cbn [pmap pbind palt] in H; try discriminate H.
+  { injection H as <- <-. exfalso. apply (Hp l5). reflexivity. }
+  destruct (object_field bs) as [r6 s6| | |] eqn:E6; cbn [pmap pbind] in H; try discriminate H.
+  injection H as <- <-. unfold object_field in E6.
+  destruct (pchar 91 bs) as [q1 v1| | |] eqn:P1; cbn [pbind] in E6; try discriminate E6. apply pchar_sound in P1.
+  destruct (pstring (multispace0 q1)) as [q2 s2| | |] eqn:P2; cbn [pbind] in E6; try discriminate E6.
+  destruct (pchar 93 (multispace0 q2)) as [q3 v3| | |] eqn:P3; cbn [pbind] in E6; try discriminate E6. injection E6 as <- <-.
+  apply pchar_sound in P3. destruct (pstring_sound _ _ _ P2) as (t & Et & Hq). destruct (quoted_name_first t s2 Hq) as (y & Ey).
+  rewrite Ey in Et. cbn [app] in Et. destruct (ms_split_cons _ _ _ Et) as (w1 & -> & H1). destruct (ms_split_cons _ _ _ P3) as (w2 & -> & H2).
+  exists (91 :: w1 ++ t ++ w2 ++ [93]). split; [rewrite P1, Ey; norm; reflexivity|apply ST_bracket_name; assumption].
+Qed.
